@@ -41,7 +41,7 @@ type UnitResult struct {
 
 // FromE1 converts an E1 result.
 func FromE1(r Result) UnitResult {
-	u := UnitResult{Unit: r.Scenario, States: r.States, Transitions: r.Transitions, Validated: r.Validated,
+	u := UnitResult{Unit: r.Scenario, Evaluations: r.Evaluations, States: r.States, Transitions: r.Transitions, Validated: r.Validated,
 		DepthDone: r.DepthDone, Exhaustive: r.Exhaustive, CapHit: r.CapHit, Violations: r.Violations, Cover: r.Cover,
 		Vacuous: r.Vacuous, WallS: r.WallS, Distinct: map[string]bool{}}
 	for _, s := range r.Samples {
@@ -69,10 +69,27 @@ func E1Unit(sc Scenario) Unit {
 				if sc.Monitor != nil {
 					sc.Monitor(st)
 				}
+				if sc.State != nil {
+					sc.State(st)
+				}
 			})
 			return err
 		},
 	}
+}
+
+// Sharded returns n copies of sc, each exploring a share of the level-1 subtrees.
+// Vacuity requirements are dropped on shards (a single shard need not hit every class).
+func Sharded(sc Scenario, n int) []Scenario {
+	var out []Scenario
+	for i := 0; i < n; i++ {
+		c := sc
+		c.Name = fmt.Sprintf("%s#%d/%d", sc.Name, i, n)
+		c.ShardIdx, c.ShardN = i, n
+		c.Need = nil
+		out = append(out, c)
+	}
+	return out
 }
 
 // Property is one registered check.
@@ -81,6 +98,9 @@ type Property struct {
 	Level string // model_checking | exploration | fault_enumeration
 	Rule  string // how cases are enumerated / what makes one non-trivial
 	Units func(tier string) []Unit
+	// Need lists coverage classes that the merged run must hit (vacuity guard
+	// for sharded scenarios; unsharded scenarios carry their own Need).
+	Need []string
 	// Assumptions recorded in the evidence file.
 	Assumptions []string
 	// Budget per unit (wall clock) for the two tiers; exceeding it ends the unit with exhaustive=false.
@@ -230,6 +250,14 @@ func Finish(p *Property, tier string, seed int, results []UnitResult, root strin
 		cov["vacuity"] = vacuous
 	}
 
+	if exhaustive {
+		for _, need := range p.Need {
+			if cover[need] == 0 {
+				viols = append(viols, Violation{Rule: "vacuity", Attrs: need, Scen: "merged",
+					Detail: "the exploration completed but never exercised '" + need + "': the positive half of the property does not hold (or the flow is unreachable)"})
+			}
+		}
+	}
 	exit := 0
 	nViol := 0
 	sigDone := map[string]bool{}
